@@ -36,6 +36,7 @@ type tcase struct {
 	Del    []int    `json:"del"`
 	Ins    []insT   `json:"ins"`
 	Ops    []string `json:"ops"`
+	Pairs  []string `json:"pairs"`
 	Nodes  int      `json:"nodes"`
 }
 
@@ -47,6 +48,8 @@ type prog struct {
 	canon  string
 	canonw string
 	ops    []string
+	pairs  []string
+	nl     []string // for every line break of the spelling: "token before|token after"
 	nodes  int
 }
 
@@ -152,6 +155,23 @@ func without(toks []string, idx ...int) []string {
 	return out
 }
 
+func nlPairs(toks []string) []string {
+	out := []string{}
+	for i, t := range toks {
+		if t == "<nl>" {
+			a, b := "", ""
+			if i > 0 {
+				a = tokText(toks[i-1])
+			}
+			if i+1 < len(toks) {
+				b = tokText(toks[i+1])
+			}
+			out = append(out, a+"|"+b)
+		}
+	}
+	return out
+}
+
 func isOpen(t string) bool  { return t == "(" || t == "[" || t == "{" || t == "(:exp" || t == "(:mix" }
 func isClose(t string) bool { return t == ")" || t == "]" || t == "}" || t == "):exp" || t == "):mix" }
 
@@ -159,7 +179,7 @@ func isClose(t string) bool { return t == ")" || t == "]" || t == "}" || t == ")
 func expand(c *tcase, seed int64, line int, muts int) []prog {
 	rnd := rand.New(rand.NewSource(seed*1000003 + int64(line)))
 	out := []prog{}
-	base := prog{src: join(c.Toks, seed, rnd), kind: c.Kind, why: c.Why, ops: c.Ops, nodes: c.Nodes}
+	base := prog{src: join(c.Toks, seed, rnd), kind: c.Kind, why: c.Why, ops: c.Ops, pairs: c.Pairs, nl: nlPairs(c.Toks), nodes: c.Nodes}
 	if c.Kind == "accept" {
 		base.canon = joinCanon(c.Canon, seed)
 		base.canonw = base.canon
@@ -185,7 +205,7 @@ func expand(c *tcase, seed int64, line int, muts int) []prog {
 						if t == "(:mix" {
 							why = "??-mixed-with-||-or-&&"
 						}
-						out = append(out, prog{src: join(without(c.Toks, i, j), seed, rnd), kind: "reject", why: why, ops: c.Ops, nodes: c.Nodes})
+						out = append(out, prog{src: join(without(c.Toks, i, j), seed, rnd), kind: "reject", why: why, ops: c.Ops, pairs: c.Pairs, nodes: c.Nodes})
 						break
 					}
 				}
@@ -200,7 +220,7 @@ func expand(c *tcase, seed int64, line int, muts int) []prog {
 		if muts < 2 && rnd.Intn(3) != 0 {
 			continue
 		}
-		out = append(out, prog{src: join(without(c.Toks, d-1), seed, rnd), kind: "reject", why: "bracket-deleted:" + tokText(c.Toks[d-1]), ops: c.Ops, nodes: c.Nodes})
+		out = append(out, prog{src: join(without(c.Toks, d-1), seed, rnd), kind: "reject", why: "bracket-deleted:" + tokText(c.Toks[d-1]), ops: c.Ops, pairs: c.Pairs, nodes: c.Nodes})
 	}
 	// one bracket inserted
 	for _, in := range c.Ins {
@@ -208,7 +228,7 @@ func expand(c *tcase, seed int64, line int, muts int) []prog {
 			continue
 		}
 		t2 := append(append(append([]string{}, c.Toks[:in.At]...), in.Tok), c.Toks[in.At:]...)
-		out = append(out, prog{src: join(t2, seed, rnd), kind: "reject", why: "bracket-inserted:" + in.Tok, ops: c.Ops, nodes: c.Nodes})
+		out = append(out, prog{src: join(t2, seed, rnd), kind: "reject", why: "bracket-inserted:" + in.Tok, ops: c.Ops, pairs: c.Pairs, nodes: c.Nodes})
 	}
 	return out
 }
@@ -224,7 +244,7 @@ type result struct {
 // the verdict is the trace specification's).
 func runProg(p *prog) result {
 	res := result{}
-	open := tr.E{"src": tr.Ints([]byte(p.src)), "kind": p.kind, "why": p.why, "canon": tr.Ints([]byte(p.canon)), "canonw": tr.Ints([]byte(p.canonw)), "ops": p.ops, "nodes": p.nodes}
+	open := tr.E{"src": tr.Ints([]byte(p.src)), "kind": p.kind, "why": p.why, "canon": tr.Ints([]byte(p.canon)), "canonw": tr.Ints([]byte(p.canonw)), "ops": p.ops, "pairs": p.pairs, "nl": p.nl, "nodes": p.nodes}
 	res.evs = append(res.evs, open)
 	for oi, o := range allOpts {
 		ev := tr.E{"opts": oi, "w2f": o.WhileToFor}
@@ -359,7 +379,7 @@ func Replay(args []string) {
 			sum.Executions += len(allOpts)
 			if p.kind == "accept" {
 				sum.Accept++
-				if p.nodes >= 3 { // statement node + at least two operator/statement nodes
+				if p.nodes >= 2 { // at least two operator / statement nodes
 					sum.Nontrivial++
 				}
 				if inw != nil {
@@ -448,13 +468,15 @@ func File(args []string) {
 			Canon  []int    `json:"canon"`
 			CanonW []int    `json:"canonw"`
 			Ops    []string `json:"ops"`
+			Pairs  []string `json:"pairs"`
+			Nl     []string `json:"nl"`
 			Nodes  int      `json:"nodes"`
 		}
 		if err := json.Unmarshal(raw, &c); err != nil {
 			fmt.Fprintln(os.Stderr, "bad line", err)
 			os.Exit(2)
 		}
-		p := prog{src: string(toBytes(c.Src)), kind: c.Kind, why: c.Why, canon: string(toBytes(c.Canon)), canonw: string(toBytes(c.CanonW)), ops: c.Ops, nodes: c.Nodes}
+		p := prog{src: string(toBytes(c.Src)), kind: c.Kind, why: c.Why, canon: string(toBytes(c.Canon)), canonw: string(toBytes(c.CanonW)), ops: c.Ops, pairs: c.Pairs, nl: c.Nl, nodes: c.Nodes}
 		r := runProg(&p)
 		tid++
 		w.Begin(tid)
